@@ -131,14 +131,15 @@ def stepLine (d : D) (t : Toks) : D × String :=
     render (settleD { d with s := step GS.Alloc.pickMin d.s .shutdown } true)
   | ["finish"] =>
     -- epilogue: every waiting caller continues, every network call succeeds, until nothing moves
+    -- (after Shutdown the select prefers the done branch)
     let rec go : Nat → State → State
       | 0, s => s
       | n + 1, s =>
         match s.waiters.find? (·.answer.isSome) with
-        | some w => go n (settle true (s.builders.length + 4) (s.wake GS.Alloc.pickMin w.ticket))
+        | some w => go n (settle false (s.builders.length + 4) (s.wake GS.Alloc.pickMin w.ticket))
         | none =>
           if s.pc != .idle && s.pc != .exited then
-            go n (settle true (s.builders.length + 4) (s.ack GS.Alloc.pickMin true))
+            go n (settle false (s.builders.length + 4) (s.ack GS.Alloc.pickMin true))
           else s
     render { d with s := go 64 d.s }
   | ["xalloc", n] =>
